@@ -110,13 +110,25 @@ def check(ctx):
     ctx.check(len(r) == 1 and src(r[0].value).replace("(", "").replace(")", "") == "self.actor**self.parms", "T9-args", ac, "Act.__call__ = actor(**parms)", "")
     mn = ctx.fn("building", "Builder.makeNeed")
     M = FuncView(ctx, mn)
-    nt = M.tests(lambda t: src(t) == "tokens[index] == 'not'")
+    from ..rules import path_condition, formula_equiv
     neg = [n for n in M.cfg.nodes if isinstance(n.ast, ast.Assign) and dotted(n.ast.targets[0]) == "negate"]
     wrap = M.call_nodes("acting.Nact")
-    gt = M.tests(lambda t: dotted(t) == "negate")
-    ok = bool(nt) and bool(wrap) and bool(gt) and M.dominated_by_edge(wrap, gt[0], "T")
-    trues = [n for n in neg if isinstance(n.ast.value, ast.Constant) and n.ast.value.value is True]
-    ok = ok and bool(trues) and all(M.dominated_by_edge([n], nt[0], "T") for n in trues)
+    entry = [M.cfg.entry.id]
+    NOT = "tokens[index] == 'not'"
+    # the flag holds exactly "the clause began with `not`" ...
+    ok = bool(neg) and bool(wrap)
+    for n in neg:
+        v = n.ast.value
+        if isinstance(v, ast.Constant) and v.value is True:
+            ok = ok and formula_equiv(path_condition(M, n, start=entry, by_value=False), NOT)
+        elif isinstance(v, ast.Constant) and v.value is False:
+            ok = ok and formula_equiv(path_condition(M, n, start=entry, by_value=False), "True")
+        else:
+            ok = ok and src(v).replace("(", "").replace(")", "") in (NOT, "True if %s else False" % NOT) and \
+                formula_equiv(path_condition(M, n, start=entry, by_value=False), "True")
+    # ... and the Nact wrapper is applied exactly when the flag is set
+    from ..rules import local_condition
+    ok = ok and formula_equiv(("or", [local_condition(M, w, by_value=False) for w in wrap]), "negate")
     ctx.check(ok, "T9-args", mn, "makeNeed wraps in Nact iff the `not` token was consumed", "negation must follow the script")
     # ... and no form of need gets out of makeNeed without passing the negation decision: every return of a built act is
     # preceded, on every path, by the test of `negate`
